@@ -432,6 +432,18 @@ def _receive_cer(ctx: Ctx, model, nc, P, K):
     if od and ".lower()" not in ast.unparse(od[0].ast.value):
         ctx.fail("receive_cer:unknown-peer#case", g.loc(od[0]), "the Origin-Host is not compared "
                  "case-insensitively with the configured peers")
+    # ... folded as bytes (ASCII letters only): str.lower() on the decoded text maps U+212A KELVIN
+    # SIGN onto "k", and an unknown peer whose name differs from a configured one only in such a
+    # character would be accepted as that peer instead of being answered 3010
+    ctx.inst("receive_cer:unknown-peer#ascii-fold")
+    if od:
+        v_ = od[0].ast.value
+        if isinstance(v_, ast.Call) and isinstance(v_.func, ast.Attribute) and v_.func.attr in ("lower", "casefold") \
+                and isinstance(v_.func.value, ast.Call) and isinstance(v_.func.value.func, ast.Attribute) \
+                and v_.func.value.func.attr == "decode":
+            ctx.fail("receive_cer:unknown-peer#ascii-fold", g.loc(od[0]), f"`{od[0].text(70)}` lower-cases "
+                     f"the decoded Origin-Host with str.lower(), which also maps non-ASCII characters "
+                     f"onto ASCII letters: a peer that is not configured is taken for one that is")
     # the table the lower-cased Origin-Host is looked up in is filled with lower-cased names
     cons = "add_peer:table-key#case"
     ctx.inst(cons)
